@@ -587,6 +587,22 @@ def rule12_shared(ctx, fl):
         v2 = ctx.view('myth_if_native.c', roots=['get_new_myth_thread_struct_stack', c12.STACK_FREE, 'myth_flmalloc', 'myth_flfree'],
                       stops=('myth_freelist_pop', 'myth_freelist_push', 'myth_mmap'), flavour=fl)
         c12.rule4_affine(ctx, v2)
+    from . import c01, c11
+    ctx.doc('C16.16', 'pthread_create / pthread_detach (shared with C01.3 / C12.6): a recycled thread record starts joinable, not finished and '
+            'without a registered joiner - set on both creation orders before the thread is published (otherwise a thread created with a '
+            'NULL attribute inherits the detached state of the record\'s previous owner and pthread_join on it never returns)')
+    v3 = ctx.view('myth_if_native.c', roots=['myth_create_ex_body'],
+                  stops=('myth_queue_push', 'myth_queue_pop', 'get_new_myth_thread_struct_desc', 'get_new_myth_thread_struct_stack',
+                         'myth_init_ex_body') + lib.SPIN_STOPS, flavour=fl)
+    ctx.attempt(c01.rule3_publish, ctx, v3, rule='C16.16', only=['myth_thread.detached', 'myth_thread.status', 'myth_thread.join_thread'])
+    with ctx.shared({'C11.1': 'C16.17', 'C11.2': 'C16.17', 'C11.3': 'C16.17'}, floor=8,
+                    doc='key destructors at thread exit (shared with C11.1-3): the exit walk visits every child of the sparse key tree and '
+                        'keeps the running key base in step with the children it skips, so the destructor looked up for a slot is that '
+                        'of the slot\'s own key'):
+        v11 = ctx.view('myth_if_native.c', roots=['myth_tls_call_destructors_rec', 'myth_tls_tree_destroy_rec', 'myth_tls_call_destructors',
+                                                  'myth_tls_tree_destroy', 'myth_tls_key_allocator_alloc'],
+                       stops=('myth_tls_tree_node_free', 'myth_free') + lib.SPIN_STOPS, flavour=fl)
+        ctx.attempt(c11.rule123_walk, ctx, v11)
     with ctx.shared({'C14.1': 'C16.14', 'C14.2': 'C16.14', 'C14.3': 'C16.14'}, floor=6,
                     doc='pthread_once (shared with C14.1-3, forwarded by C16.1): one caller is elected by a CAS from the initial value, '
                         'the routine is called by the elected caller only, completion is published after it, and nobody returns before '
